@@ -24,6 +24,19 @@ pub fn c01(ctx: &Ctx) {
         ("block", SizeProfile::Block, 6..28, if q { 240 } else { 12_000 }),
         ("multi", SizeProfile::Multi, 5..18, if q { 80 } else { 4_000 }),
     ];
+    // a topic whose chain crosses from one WAL file into the next (96-98 units are handed out
+    // cheaply first, then 3-5 entries that need a block each), read back with both read APIs
+    e1_search(
+        ctx,
+        "file-boundary",
+        move || fileroll_case_strategy(Mix { append: 14, batch: 6, batch_many: 0, read_next: 30, batch_read: 50, ..Mix::consuming() }, 3..10, 2, mode_strategy()),
+        opts.clone(),
+        enabled.clone(),
+        |f| has(f, "file_end_approached") && (has(f, "batch_read_used") || has(f, "read_next_used")),
+        true,
+        if q { 48 } else { 2_000 },
+        w,
+    );
     for (name, prof, nops, cases) in plans {
         let nops2 = nops.clone();
         e1_search(
